@@ -82,6 +82,7 @@ class Opts:
         self.shared_labels_bias = 0.0  # probability that a later plain stratification reuses the stratum LABELS of an earlier one (yes/no under two different names)
         self.inf_adjust_bias = 0.0     # lower bound on the probability that a stratification adjusts infectiousness
         self.param_split_all_bias = 0.0  # probability that every proportion of a literal split is replaced by a parameter of its own with that value
+        self.age_bias = 0.0            # probability of forcing an age stratification when one is still possible
         self.two_infectious = False    # always two infectious compartments
         self.split_bias = 0.0          # lower bound on the probability that a stratification carries a population split
         self.inexact_split_bias = 0.0  # probability that a literal split sums to one only within the API's tolerance (0.01), or that a split of two independent parameters is used (not checked by the API)
@@ -415,6 +416,8 @@ class Gen:
         kind = r.choice(kinds)
         if o.strain_bias > 0 and "strain" in kinds and r.random() < o.strain_bias:
             kind = "strain"
+        if o.age_bias > 0 and "age" in kinds and r.random() < o.age_bias:
+            kind = "age"
         forced_mix = self.force_mix.pop(0) if getattr(self, "force_mix", None) else None
         if forced_mix:
             kind = "plain"
